@@ -76,7 +76,9 @@ def cond(r, d=0):
     if k < 0.73:
         return f"{r.choice(['exists', 'empty'])}({hdr(r)})"
     if k < 0.79:
-        return f'in({hdr(r)}, "x|y|3")'
+        # in(): a haystack of terms, of cells and variables (per-line values), or both
+        hay = r.choice(['"x|y|3"', '"x|y|3"', hdr(r), f'"x|3", {hdr(r)}', f"{hdr(r)}, {hdr(r)}", var(r), f'{hdr(r)}, "fish|1"'])
+        return f"in({hdr(r)}, {hay})"
     if k < 0.84:
         return f"equals({value(r, 1)}, {value(r, 1)})"
     if k < 0.88:
@@ -149,7 +151,8 @@ def pure_cond(r, d=0):
     if k < 0.8:
         return f"{r.choice(['exists', 'empty'])}({hdr(r)})"
     if k < 0.9:
-        return f'in({hdr(r)}, "x|y|3|Fish")'
+        hay = r.choice(['"x|y|3|Fish"', '"x|y|3|Fish"', hdr(r), f'"x|3", {hdr(r)}', f"{hdr(r)}, {hdr(r)}"])
+        return f"in({hdr(r)}, {hay})"
     return f"starts_with({hdr(r)}, {sterm(r)})"
 
 
